@@ -220,6 +220,9 @@ let step line =
       let (r, chs) = ref_verify (ver = "V3") (fr x) (bytes_of_hex vb) (bytes_of_hex pb) pis in
       Printf.printf "V %s %s %s\n" name (match r with Accept -> "ACCEPT" | Reject -> "REJECT" | RejectPiLen -> "REJECT_PILEN" | Malformed -> "MALFORMED")
         (String.concat "," (List.map hex_of_fr chs))
+  | ["VD"; name; ver; x; vb; pb; pis] ->
+      let pis = if pis = "-" then [] else List.map fr (String.split_on_char ',' pis) in
+      Printf.printf "VD %s %s\n" name (hex_of_bytes (ref_discrepancy (ver = "V3") (fr x) (bytes_of_hex vb) (bytes_of_hex pb) pis))
   | ["G1LIN"; name; base; sc; g] ->
       (match g1_lin (bytes_of_hex base) (ZA.of_string ("0x" ^ sc)) (bytes_of_hex g) with
        | Some b -> Printf.printf "G1LIN %s %s\n" name (hex_of_bytes b)
